@@ -70,7 +70,25 @@ def site_task(shape):
 def build(tier, seed):
     from bounded import c09
     set_tier(tier)
-    tasks = [a_task(PROP, _get_url), a_task(PROP, _basenode), nav_task(), builder_task()] + [site_task(s) for s in c09.SHAPES]
+    def norm_task():
+        def run():
+            from contracts import confine
+            return [confine.normalise_path_resolves(PROP, "relative_url rewrites a link by replacing the *resolved* form of its target, which must occur in the link text: "
+                                                    "output_dir / project_url have to be canonical already", c09.dotdot_output)]
+        return Task(f"{PROP}.S.normalise_path", PROP, "ford.utils.normalise_path", run)
+
+    def dotdot_task():
+        def run():
+            t0 = time.time()
+            hit = c09.dotdot_output()
+            r = OR(id=f"{PROP}.Bd.site.project_file_in_a_subdirectory", status=REFUTED if hit else PROVED, kind="Bd", role="bounded", target="ford.main (whole site)",
+                   desc="the kitchen-sink project with its project file in docs/ and `src_dir: ../src`, `output_dir: ../site`: every link relative and live", bound="1 site", cases=1,
+                   seconds=time.time() - t0, backend="enumeration")
+            if hit:
+                r.replay, r.witness = hit, hit["input"]
+            return [r]
+        return Task(f"{PROP}.Bd.site.dotdot", PROP, "site", run)
+    tasks = [a_task(PROP, _get_url), a_task(PROP, _basenode), nav_task(), norm_task(), builder_task(), dotdot_task()] + [site_task(s) for s in c09.SHAPES]
     meta = {
         "trusted_base": TRUSTED_BASE + ["jinja2's own parser (templates are read through jinja2.Environment().parse)", "cvc5 1.0.3 --strings-exp for the word-equation obligations of get_url"],
         "assumptions": PYVC_ASSUMPTIONS + [
